@@ -455,6 +455,50 @@ func c08Reference(sc *c08Scn, data []byte) ([]c08RefRec, error) {
 	}
 }
 
+// c08CRLFInsideQuotes reports whether a CR LF pair of the record's raw bytes lies inside a quoted
+// field (lenient quotes: a field is quoted when it starts with a quote; inside, a quote followed
+// by a quote is a quote, followed by the separator or the end of the line it closes the field,
+// anything else is a bare quote).
+func c08CRLFInsideQuotes(raw string, sep rune) bool {
+	inQ, atStart := false, true
+	for i := 0; i < len(raw); {
+		if !inQ {
+			if atStart && raw[i] == '"' {
+				inQ, atStart = true, false
+				i++
+				continue
+			}
+			r, n := utf8.DecodeRuneInString(raw[i:])
+			atStart = r == sep || r == '\n'
+			i += n
+			continue
+		}
+		if raw[i] == '"' {
+			rest := raw[i+1:]
+			if strings.HasPrefix(rest, "\"") {
+				i += 2
+				continue
+			}
+			r, n := utf8.DecodeRuneInString(rest)
+			if len(rest) > 0 && r == sep {
+				inQ, atStart = false, true
+				i += 1 + n
+				continue
+			}
+			if rest == "" || strings.HasPrefix(rest, "\n") || strings.HasPrefix(rest, "\r\n") {
+				inQ = false
+			}
+			i++
+			continue
+		}
+		if raw[i] == '\r' && i+1 < len(raw) && raw[i+1] == '\n' {
+			return true
+		}
+		i++
+	}
+	return false
+}
+
 func stripTerminator(s string) string {
 	if strings.HasSuffix(s, "\r\n") {
 		return s[:len(s)-2]
@@ -659,7 +703,10 @@ func c08Check(sc *c08Scn, d core.Delivery, obs, base *c08Obs, ref []c08RefRec, r
 		}
 		// (b) $0 is the record's own text without its terminator
 		wantLine := stripTerminator(w.Raw)
-		if strings.Contains(w.Raw, "\r") {
+		if c08CRLFInsideQuotes(w.Raw, c08SepRune(sc)) {
+			// a CRLF inside a quoted field: the code normalises it to LF in the field and deletes
+			// CRs from $0; the statement does not say which is right, so compare modulo CR — only
+			// for such records. A bare CR elsewhere is data and must stay in $0.
 			if strings.ReplaceAll(o.Line, "\r", "") != strings.ReplaceAll(wantLine, "\r", "") {
 				return &core.Failure{Oracle: "record-text", Detail: fmt.Sprintf("%s: $0 of record %d is %q, the record's own text is %q (compared modulo CR)", desc(d), i+1, o.Line, wantLine)}
 			}
